@@ -19,6 +19,9 @@
 //             of a thread), reopens the directory with tsdb.Open, dumps all samples and prints what the
 //             acknowledgement file says next to what is there (op `kill`).
 //
+// A third kind of case (`t<wseed>`, ops `stage` / `tear`) rebuilds crash states with one TORN file
+// (newest chunks_head file, WAL or WBL tail) without strace: see tear.go.
+//
 // ops/outputs:
 //   trace <wseed>              -> a1|a2|…  (actions: w:<path> f:<path> r:<from>><to> u:<path> m:<path> t:<path>)
 //   kill <wseed> <kind> <n>    -> open=<ok|err:…> acked=<s:t:v,…> inflight=<s:t:v,…> deleted=<s:a:b;…> delinflight=<…> present=<s:t:v,…> killed=<yes|no>
@@ -40,9 +43,11 @@ import (
 	"sync"
 	"syscall"
 
+	"github.com/prometheus/client_golang/prometheus"
 	"github.com/prometheus/common/promslog"
 
 	"github.com/prometheus/prometheus/model/labels"
+	"github.com/prometheus/prometheus/storage"
 	"github.com/prometheus/prometheus/tsdb"
 	"github.com/prometheus/prometheus/tsdb/chunkenc"
 
@@ -238,18 +243,10 @@ func sortedKeys(m map[string]bool) string {
 	return strings.Join(ks, ",")
 }
 
-func dump(dir string, wseed uint64) (string, string) {
-	db, err := tsdb.Open(dir, promslog.NewNopLogger(), nil, dbOpts(wseed), nil)
-	if err != nil {
-		return "err:" + strings.ReplaceAll(err.Error(), " ", "_"), "-"
-	}
-	defer db.Close()
-	db.DisableCompactions()
-	q, err := db.Querier(math.MinInt64, math.MaxInt64)
-	if err != nil {
-		return "err:" + strings.ReplaceAll(err.Error(), " ", "_"), "-"
-	}
-	defer q.Close()
+func dump(dir string, wseed uint64) (string, string) { return dumpWith(dir, dbOpts(wseed), nil) }
+
+// drain reads every sample of metric m through a querier.
+func drain(q storage.Querier) ([]string, string) {
 	ss := q.Select(context.Background(), true, nil, labels.MustNewMatcher(labels.MatchEqual, "__name__", "m"))
 	var out []string
 	for ss.Next() {
@@ -260,13 +257,32 @@ func dump(dir string, wseed uint64) (string, string) {
 			out = append(out, fmt.Sprintf("%s:%d:%016x", s.Labels().Get("s"), t, math.Float64bits(v)))
 		}
 		if it.Err() != nil {
-			return "err:iter:" + strings.ReplaceAll(it.Err().Error(), " ", "_"), "-"
+			return nil, "err:iter:" + strings.ReplaceAll(it.Err().Error(), " ", "_")
 		}
 	}
 	if ss.Err() != nil {
-		return "err:select:" + strings.ReplaceAll(ss.Err().Error(), " ", "_"), "-"
+		return nil, "err:select:" + strings.ReplaceAll(ss.Err().Error(), " ", "_")
 	}
 	sort.Strings(out)
+	return out, ""
+}
+
+func dumpWith(dir string, opts *tsdb.Options, reg prometheus.Registerer) (string, string) {
+	db, err := tsdb.Open(dir, promslog.NewNopLogger(), reg, opts, nil)
+	if err != nil {
+		return "err:" + strings.ReplaceAll(err.Error(), " ", "_"), "-"
+	}
+	defer db.Close()
+	db.DisableCompactions()
+	q, err := db.Querier(math.MinInt64, math.MaxInt64)
+	if err != nil {
+		return "err:" + strings.ReplaceAll(err.Error(), " ", "_"), "-"
+	}
+	defer q.Close()
+	out, e := drain(q)
+	if e != "" {
+		return e, "-"
+	}
 	if len(out) == 0 {
 		return "ok", "-"
 	}
@@ -308,6 +324,7 @@ func abstractTrace(tracePath, dir string, tid int) ([]string, map[string]int) {
 	}
 	sc := bufio.NewScanner(f)
 	sc.Buffer(make([]byte, 1<<20), 1<<24)
+	pending := ""
 	for sc.Scan() {
 		l := sc.Text()
 		sp := strings.IndexByte(l, ' ')
@@ -319,6 +336,20 @@ func abstractTrace(tracePath, dir string, tid int) ([]string, map[string]int) {
 			continue
 		}
 		rest := strings.TrimSpace(l[sp:])
+		// a syscall interrupted in the strace output by another thread's line:
+		//   <tid> fsync(5</path> <unfinished ...>   …   <tid> <... fsync resumed>) = 0
+		if strings.HasSuffix(rest, "<unfinished ...>") {
+			pending = strings.TrimSuffix(rest, "<unfinished ...>")
+			continue
+		}
+		if strings.HasPrefix(rest, "<... ") {
+			i := strings.Index(rest, " resumed>")
+			if i < 0 || pending == "" {
+				continue
+			}
+			rest = pending + rest[i+len(" resumed>"):]
+			pending = ""
+		}
 		par := strings.IndexByte(rest, '(')
 		if par < 0 || strings.Contains(rest, "= -1 ") || strings.HasSuffix(rest, "<unfinished ...>") {
 			continue
@@ -462,8 +493,13 @@ func main() {
 	if c.Replay != "" {
 		for _, cs := range c.ReplayCases() {
 			c.Case(strings.TrimPrefix(cs[0], "case "))
+			var tearOps []string
 			for _, op := range cs[1:] {
 				f := strings.Fields(op)
+				if f[0] == "stage" || f[0] == "tear" {
+					tearOps = append(tearOps, op)
+					continue
+				}
 				if f[0] == "kill" && len(f) >= 4 {
 					ws, _ := strconv.ParseUint(f[1], 10, 64)
 					n, _ := strconv.Atoi(f[3])
@@ -472,8 +508,25 @@ func main() {
 					c.Op(op, "-")
 				}
 			}
+			if len(tearOps) > 0 {
+				tearReplay(c, tearOps)
+			}
 		}
 		return
+	}
+	// torn-file cases (tear.go): four workloads, the four interleaving patterns in turn
+	nTear := 4
+	if v, ok := c.Extra["tearn"]; ok {
+		nTear, _ = strconv.Atoi(v)
+	}
+	tbase := c.Rng.U64() % 1000000
+	for i := 0; i < nTear; i++ {
+		wseed := tbase + uint64(i)*5 // consecutive patterns (mod 4), varying cap (wseed/4 mod 4)
+		c.Case(fmt.Sprintf("t%d", wseed))
+		tearCase(c, wseed)
+	}
+	if c.Extra["killn"] != "" {
+		c.N, _ = strconv.Atoi(c.Extra["killn"])
 	}
 	every := 6
 	if c.Tier == "thorough" {
